@@ -54,20 +54,30 @@ def long_cases(draw, tier):
     integer (thousands of entries drawn one by one would be the whole budget); the case stores the matrix itself."""
     Lg = draw(st.sampled_from(LONG_DIMS)) + draw(st.sampled_from([0, 0, 1, 7]))
     sh = draw(st.integers(1, 4))
-    r = draw(st.integers(1, sh))
+    r = draw(st.integers(max(1, sh - 1), sh))
+    if draw(st.integers(0, 2)) == 0:
+        sh = draw(st.integers(8, 24))                 # a "short" side that is still well above the rank
+        r = draw(st.integers(2, 4))
     rng = np.random.RandomState(draw(gen.seeds()))
     B = rng.standard_normal((Lg, r, 4))
     C = rng.standard_normal((r, sh, 4))
     # graded columns so the spectrum is simple and well separated (outside the known-finding classes)
     A = ref.qmm(B * (2.0 ** -np.arange(r))[None, :, None], C)
+    if draw(st.integers(0, 2)) == 0:
+        # the same rank carried by r isolated rows of a long matrix whose other rows are exactly zero (after the
+        # optional transposition below: r isolated columns): structured sketches must not lose such data
+        A = np.zeros((Lg, sh, 4))
+        rows = draw(st.lists(st.integers(0, Lg - 1), min_size=r, max_size=r, unique=True))
+        for t, i in enumerate(rows):
+            A[i] = C[t] * 2.0 ** -t
     if draw(st.booleans()):
         A = np.ascontiguousarray(ref.conjT(A))
-    R = r if draw(st.integers(0, 2)) else draw(st.integers(r, sh))     # rank == R is outside the known-finding class
+    R = r if draw(st.integers(0, 2)) else draw(st.integers(r, min(sh, r + 3)))     # rank == R is outside the known-finding class
     A = A * 10.0 ** draw(st.sampled_from([0, 0, -6, 5]))
     return {"A": np.ascontiguousarray(A), "kind": f"long:rank{r}", "R": R,
             "algo": draw(st.sampled_from(["rand_qsvd", "pass_eff_qsvd"])),
-            "oversample": draw(st.sampled_from([0, 1, 2, 5, 10])),
-            "n_iter": draw(st.integers(0, 3)), "n_passes": draw(st.integers(2, 5)),
+            "oversample": draw(st.sampled_from([0, 0, 1, 2, 5, 10])),
+            "n_iter": draw(st.sampled_from([0, 0, 0, 1, 2, 3])), "n_passes": draw(st.integers(2, 5)),
             "seed": draw(gen.seeds())}
 
 
@@ -160,7 +170,7 @@ PROPERTY = Property(
     title="Randomized Q-SVDs: orthonormal factors, interlacing values, exact on low rank",
     rule="R + oversample > min(m,n), or rank(A) < min(m,n), or min(m,n) <= 3",
     clauses=[Clause("rsvd", check_rsvd, strategy=rsvd_cases, budget={"quick": 1200, "thorough": 16000}),
-             Clause("rsvd_long_dimension", check_rsvd, strategy=long_cases, budget={"quick": 160, "thorough": 1600},
+             Clause("rsvd_long_dimension", check_rsvd, strategy=long_cases, budget={"quick": 320, "thorough": 3200},
                     shrink=False)],
     assumptions=[
         "the library's global numpy RNG is seeded by the harness with a generated integer right before each call",
